@@ -12,6 +12,12 @@ CHECKS = {
         text='All trees with <=5 (thorough 6) nodes and all two-tree forests with <=4 (5) nodes over 21 lexical-class leaves (long/hyphenated tokens, literals and quoted symbols with blanks, parentheses, semicolons, newlines, doubled quotes, comments, empty lists) plus a column sweep that puts every leaf class at every start column 3..95 are parsed by ddSMT and rendered by all four real renderers; every rendering must have the source token sequence (independent tokenizer) and re-parse to the same structure. The space is enumerated completely (360 k sources, 1.4 M renderings quick).',
         note='Trusted: reference tokenizer ddv/sexp.py; leaves are class representatives; sources go through ddSMT\'s own reader (C08 checks that reader).',
         design='3/C07'),
+    'C11': dict(
+        level='exploration', engine='ENUM',
+        technique='bounded-exhaustive enumeration of (base forest, simplification) pairs against a recursive nested-list model, with object-identity and work-budget oracles',
+        text='Every forest of <=2 trees with <=6 (thorough 7) nodes over two leaf texts, every antichain of <=2 (3) id-keyed positions with 7 replacement kinds (deletion, fresh/existing leaf, compound terms, own child, BinaryReduction tuple), every structural key from {a,(a),(a b)} with replacements that contain the key once or twice, id+structural and double structural combinations, all ordered pairs of pending id-keyed simplifications, and declaration insertion over all command sequences of length <=3 are run through the real mutator_utils.apply_simp / nodes.substitute / smtlib.introduce_variables (1.5 M cases quick) and compared with an independent recursive model; untouched subtrees must be the identical objects, the base must be unchanged, and each call must stay within a deterministic count budget (catches re-entering a replacement).',
+        note='Trusted: the nested-list model in ddv/checks/c11.py. Id replacements that contain or equal a structural key are not generated (statement ambiguous); tuple replacements only alone (as BinaryReduction uses them).',
+        design='3/C11'),
     'C08': dict(
         level='exploration', engine='ENUM',
         technique='bounded-exhaustive enumeration of lexeme sequences x separators x nesting against an independent reference reader',
